@@ -372,3 +372,13 @@ PROPS["C12"]["aux"] = ["miri"]
 PROPS["C13"]["aux"] = ["miri"]
 PROPS["C15"]["aux"] = ["memcheck"]
 PROPS["C16"]["aux"] = ["memcheck"]
+
+# Quick-tier minimum-observation thresholds: a quarter of the minimum observed on the unchanged
+# tree over seeds 1-3 (tools/calibrate.py), kept in thresholds_quick.json.
+import json as _json
+import os as _os
+_cal = _os.path.join(_os.path.dirname(_os.path.abspath(__file__)), "thresholds_quick.json")
+if _os.path.exists(_cal):
+    for _pid, _t in _json.load(open(_cal)).items():
+        if _pid in PROPS:
+            PROPS[_pid]["thresholds"]["quick"] = _t
